@@ -209,6 +209,8 @@ THREADSETS = {
     'set+set_same': ((('set', 0, 11),), (('set', 0, 22),)),
     'set+set_diff': ((('set', 0, 11), ('read', 0)), (('set', 1, 33),)),
     'mixed3': ((('set', 2, 2.25),), (('get_state', 1),), (('read', 0),)),
+    'read1+state2': ((('read', 1),), (('get_state', 2),)),
+    'set1+read2': ((('set', 1, 44),), (('read', 2),)),
     'store_clear_same': ((('store', 1),), (('clear', 1),), (('get_state', 1),)),
 }
 
@@ -238,13 +240,13 @@ def exec_c04(cfg, devs):
         cf.packet_received.add_callback(lambda pk: ex.log('processed', pk.header, bytes(pk.data)) if (
             pk.port == 2 and pk.channel != 0) else None)
         q = cf.param.param_updater.request_queue
-        orig_put = q.put
 
-        def logged_put(item, *a, **kw):
-            r = orig_put(item, *a, **kw)          # (the shim's scheduling point is before the append)
-            ex.log('put', item.header, bytes(item.data))
-            return r
-        q.put = logged_put
+        class _LogList(list):
+            # the order in which requests enter the queue, observed at the append itself
+            def append(self_, item):
+                ex.log('put', item.header, bytes(item.data))
+                list.append(self_, item)
+        q.queue = _LogList(q.queue)
         upd = []
         cf.param.add_update_callback(cb=lambda name, val: (upd.append((name, val)), ex.log('update', name, val)))
         info['upd'] = upd
@@ -273,15 +275,25 @@ def exec_c04(cfg, devs):
                         cf.param.persistent_clear(NAMES[pi], cbk)
                 except Exception as e:  # noqa
                     ex.log('raise', key, repr(e)[:80])
+        if cfg.get('unsol_inflight'):
+            # a value-changed notification is already on its way down (arrives 0.1 s later) when the requests are issued:
+            # it is then processed while a request is outstanding
+            upi = cfg.get('unsol_param', 1)
+            newv = struct.unpack(dev.params[upi].fmt, struct.pack(dev.params[upi].fmt, 99))[0]
+            dev.params[upi].value = newv
+            ex.log('unsolicited', upi, newv)
+            ex.env.links[-1].deliver_later(*dev.value_updated_packet(upi), 0.1)
         for ti, reqs in enumerate(threads):
             s.spawn(None, (lambda ti=ti, reqs=reqs: user(ti, reqs)), name='user%d' % ti)
         if cfg.get('unsolicited'):
             def unsol():
                 s.lazy_point('env.value_updated', timeout=cfg['unsolicited'])
-                dev.params[1].value = 99
-                ex.log('unsolicited', 1, 99)
+                upi = cfg.get('unsol_param', 1)
+                newv = struct.unpack(dev.params[upi].fmt, struct.pack(dev.params[upi].fmt, 99))[0]
+                dev.params[upi].value = newv
+                ex.log('unsolicited', upi, newv)
                 if ex.env.links and not ex.env.links[-1].closed:
-                    ex.env.links[-1].inject(*dev.value_updated_packet(1))
+                    ex.env.links[-1].inject(*dev.value_updated_packet(upi))
             s.spawn(None, unsol, name='env-unsolicited')
         s.sleep(cfg.get('settle', 2.5), 'settle')
         ex.freeze()
@@ -388,7 +400,7 @@ def _judge(p, cfg, devs, ex, info, dev, threads):
     last = None
     for i, e in enumerate(ev):
         if e[1] == 'unsolicited':
-            ref.params[1].value = 99
+            ref.params[e[2]].value = e[3]
         if e[1] == 'tx':
             k = (e[2] & 3, e[3])
             if k == last:
@@ -478,6 +490,14 @@ def configs(quick):
     out.append({'name': 'getstate2+unsolicited', 'threads': 'getstate2', 'unsolicited': 0.05})
     out.append({'name': 'set+read+unsolicited', 'threads': 'set+read', 'unsolicited': 0.05})
     out.append({'name': 'mixed3+unsolicited', 'threads': 'mixed3', 'unsolicited': 0.05})
+    # the notification is about another parameter than the ones being requested (ids 0/1 share bytes with the command)
+    out.append({'name': 'set+set_diff+unsol0', 'threads': 'set+set_diff', 'unsolicited': 0.05, 'unsol_param': 0})
+    out.append({'name': 'set+read+unsol0', 'threads': 'set+read', 'unsolicited': 0.05, 'unsol_param': 0})
+    out.append({'name': 'getstate2+unsol2', 'threads': 'getstate2', 'unsolicited': 0.05, 'unsol_param': 2})
+    # the notification is in flight while the requests are issued, so it is processed while one is outstanding
+    out.append({'name': 'read1+state2+inflight0', 'threads': 'read1+state2', 'unsol_inflight': True, 'unsol_param': 0})
+    out.append({'name': 'set1+read2+inflight0', 'threads': 'set1+read2', 'unsol_inflight': True, 'unsol_param': 0})
+    out.append({'name': 'getstate2+inflight2', 'threads': 'getstate2', 'unsol_inflight': True, 'unsol_param': 2})
     for pol in ('handoff', 'eager'):
         for th in ('getstate2', 'set+read', 'store+state'):
             out.append({'name': '%s:%s' % (th, pol), 'threads': th, 'policy': pol})
